@@ -275,6 +275,21 @@ class ContractMixin:
             st.assume(z3.Implies(PyVal.is_RefV(c), z3.And(PyVal.rval(c) > 0, PyVal.rval(c) < st.alloc0)))
         return v
 
+    # ---------------------------------------------------------------- lemmas (statements about spec functions)
+    def verify_lemma(self, name, d):
+        from .symex import Frame
+        self.cur_fn = "lemma:" + name
+        fr = Frame(None, "<spec>")
+        self.cur_frame = fr
+        st = State()
+        for v, kind in d.get("vars", {}).items():
+            st.env[v] = self.make_param(st, v, kind)
+        self._entry_env, self._entry_heap = dict(st.env), st.heap.snapshot()
+        st.old = (st.heap.snapshot(), dict(st.env), st.alloc)
+        for text in d.get("requires", []):
+            st.assume(self.spec_bool(text, st, fr, "assume"))
+        self.oblige_spec(st, fr, "lemma", name, d["ensures"], props=tuple(d.get("props", ())))
+
     # ---------------------------------------------------------------- verification of one function
     def verify_function(self, fi, c):
         """Generate all obligations of `fi` against its contract `c`."""
